@@ -112,7 +112,7 @@ fn show(args: &[String]) {
 const DECORATORS: [&str; 7] = ["paren", "neg", "not", "field", "call0", "paren2", "pos"];
 const LEAVES: [&str; 7] = ["int", "float", "numeric", "str", "none", "auto", "bool"];
 const MAIN_CTX: [&str; 10] = ["doc", "hash", "let", "codeblock", "arg", "math_i", "math_b", "mixed", "item", "content_ml"];
-const MORE_CTX: [&str; 6] = ["nested_code", "math_hash", "heading", "strong", "pattern", "param"];
+const MORE_CTX: [&str; 7] = ["nested_code", "nested_code3", "math_hash", "heading", "strong", "pattern", "param"];
 const CORE_CTX: [&str; 5] = ["doc", "hash", "let", "codeblock", "math_i"];
 
 fn all_ctx() -> Vec<&'static str> {
@@ -136,12 +136,12 @@ fn lvl(name: &str, skeletons: Vec<model::Skeleton>, dev1: &[&str], dev2: &[&str]
 fn full_levels(m: &Model, thorough: bool, forms1: &[&str], forms_k2: &[&str], forms2: &[&str]) -> Vec<Level> {
     let all = all_ctx();
     let mut v = vec![
-        lvl("ctx*/k<=1/dev<=1", sweep::skeletons(m, &all, &[0, 1], &[Size::Short, Size::Medium]), forms1, &[]),
+        lvl("ctx*/k<=1/dev<=1", sweep::skeletons(m, &all, &[0, 1], &[Size::Short, Size::Medium, Size::AllMid, Size::Tail]), forms1, &[]),
         lvl("main/k2/dev0", sweep::skeletons(m, &MAIN_CTX, &[2], &[Size::Short]), &[], &[]),
         if thorough {
             lvl("hash,let,math/k2/dev1", sweep::skeletons(m, &["hash", "let", "math_i"], &[2], &[Size::Short]), forms_k2, &[])
         } else {
-            lvl("let/k2/dev1", sweep::skeletons(m, &["let"], &[2], &[Size::Short]), &forms_k2[..2], &[])
+            lvl("let/k2/dev1", sweep::skeletons(m, &["let"], &[2], &[Size::Short]), &forms_k2[..1], &[])
         },
     ];
     // decorated spines: p1 . (paren | neg | not | field | call0 | paren2 | pos)^{1,2} . literal leaf
@@ -164,7 +164,23 @@ fn full_levels(m: &Model, thorough: bool, forms1: &[&str], forms_k2: &[&str], fo
         &["off_bc", "bc"],
         &["off_bc", "bc"],
     ));
+    // chains written over several, over-indented lines (two line-break deviations)
+    v.push(lvl(
+        "codeblock,let,arg/chains/two over-indented line breaks",
+        sweep::skeletons(m, &["codeblock", "let", "arg"], &[1, 2], &[Size::Short, Size::AllMid, Size::Tail])
+            .into_iter()
+            .filter(|sk| {
+                let last = m.prods[sk.spine[sk.spine.len() - 1].0].name;
+                let first = m.prods[sk.spine[0].0].name;
+                matches!(last, "field2" | "chain_call" | "chain3" | "method" | "method2")
+                    && (sk.spine.len() == 1 || matches!(first, "let" | "paren" | "arr1" | "call1" | "block1_ml"))
+            })
+            .collect(),
+        &["nl_sp12", "nl"],
+        &["nl_sp12", "nl"],
+    ));
     if thorough {
+        v.push(lvl("ctx*/k<=1/two line breaks", sweep::skeletons(m, &all, &[1], &[Size::Short, Size::AllMid]), &["nl_sp12", "nl"], &["nl_sp12", "nl"]));
         v.push(lvl("ctx*/k<=1/dev2", sweep::skeletons(m, &all, &[1], &[Size::Short]), forms2, forms2));
         v.push(lvl("ctx*/k2/dev1", sweep::skeletons(m, &all, &[2], &[Size::Short]), forms1, &[]));
         v.push(lvl("ctx*/k<=1/long", sweep::skeletons(m, &all, &[1], &[Size::AllMid, Size::Long]), forms1, &[]));
@@ -177,6 +193,17 @@ fn full_levels(m: &Model, thorough: bool, forms1: &[&str], forms_k2: &[&str], fo
         ));
         v.push(lvl("core/k3/dev0", sweep::skeletons(m, &CORE_CTX, &[3], &[Size::Short]), &[], &[]));
     }
+    cheapest_first(v)
+}
+
+/// Order the levels by estimated cost, cheapest first, so that a wall cap cuts the most expensive
+/// level and not the small targeted ones.
+fn cheapest_first(mut v: Vec<Level>) -> Vec<Level> {
+    let cost = |l: &Level| {
+        let g = 14usize; // typical number of gaps
+        l.skeletons.len() * (1 + g * l.dev1.len() + g * g / 2 * l.dev2.len() * l.dev2.len())
+    };
+    v.sort_by_key(cost);
     v
 }
 
@@ -185,7 +212,7 @@ fn literal_wrappers(m: &Model, ks: &[usize]) -> Vec<(String, String)> {
     // with a marker atom, then cut the marker out
     let mut res = vec![];
     let marker = "a"; // the first E atom of a skeleton is always `a`
-    for sk in sweep::skeletons(m, &["hash", "let", "codeblock", "arg", "mixed", "nested_code", "math_hash", "content_ml"], ks, &[Size::Short]) {
+    for sk in sweep::skeletons(m, &["hash", "let", "codeblock", "arg", "mixed", "nested_code", "nested_code3", "math_hash", "content_ml"], ks, &[Size::Short]) {
         let t = m.instantiate(&sk);
         // replace the first standalone `a` token that is an identifier leaf
         let root = tyv_model::syntax::parse(&t);
@@ -226,7 +253,7 @@ fn plan_for(id: &str, thorough: bool) -> Option<Plan> {
         "C01" => Plan {
             oracle: Box::new(oracles::tree::C01),
             levels: full_levels(&m, thorough, model::FORMS_ALL, model::FORMS_QUICK, &["nl", "bc", "lc", "sp", "none"]),
-            extra: vec![],
+            extra: vec![ExtraLevel { name: "whitespace spellings (mixed newline styles, long runs)".into(), inputs: families::ws_spellings() }],
             policy: std_policy(sparse),
             assumptions: vec![two_uses, wrapper, "typst_syntax 0.13.1 is the reference parser (same version as the subject's)".into()],
             model: m,
@@ -268,11 +295,12 @@ fn plan_for(id: &str, thorough: bool) -> Option<Plan> {
             levels: if thorough {
                 full_levels(&m, true, model::FORMS_ALL, model::FORMS_QUICK, &["nl", "nl2", "bc", "lc", "none"])
             } else {
-                vec![
+                cheapest_first(vec![
                     lvl("ctx*/k<=1/dev<=1", sweep::skeletons(&m, &all_ctx(), &[0, 1], &[Size::Short]), model::FORMS_ALL, &[]),
+                    lvl("ctx*/k<=1/mid atoms/layout forms", sweep::skeletons(&m, &all_ctx(), &[1], &[Size::AllMid]), &["nl", "nl_sp12", "nl2", "none", "lc", "bc"], &[]),
                     lvl("main/k2/dev0", sweep::skeletons(&m, &MAIN_CTX, &[2], &[Size::Short]), &[], &[]),
-                    lvl("let/k2/dev1", sweep::skeletons(&m, &["let"], &[2], &[Size::Short]), &["nl"], &[]),
-                ]
+                    full_levels(&m, false, model::FORMS_ALL, model::FORMS_QUICK, &["nl"]).into_iter().find(|l| l.name.starts_with("codeblock,let,arg/chains")).unwrap(),
+                ])
             },
             extra: vec![],
             policy: std_policy(sparse),
@@ -313,6 +341,7 @@ fn plan_for(id: &str, thorough: bool) -> Option<Plan> {
             let all = all_ctx();
             let mut levels = vec![
                 lvl("ctx*/k<=2 ugly payload/directive at every gap", sweep::skeletons_f(&m, &all, &[1, 2], &[Size::Short], SpineFilter::UglyLast), &["off_bc", "off_lc"], &[]),
+                lvl("ctx*/k<=1 ugly payload/directive variants", sweep::skeletons_f(&m, &all, &[1], &[Size::Short], SpineFilter::UglyLast), model::FORMS_DIRECTIVE, &[]),
                 lvl("ctx*/k<=1 clean/directive at every gap", sweep::skeletons(&m, &all, &[1], &[Size::Short]), &["off_bc", "off_lc"], &[]),
             ];
             if thorough {
@@ -332,7 +361,10 @@ fn plan_for(id: &str, thorough: bool) -> Option<Plan> {
                 }
                 v
             },
-            extra: vec![ExtraLevel { name: format!("prose sequences <= {}", if thorough { 3 } else { 2 }), inputs: families::prose(if thorough { 3 } else { 2 }, true) }],
+            extra: vec![
+                ExtraLevel { name: "whitespace spellings between words (mixed newline styles, long runs)".into(), inputs: families::ws_spellings() },
+                ExtraLevel { name: format!("prose sequences <= {}", if thorough { 3 } else { 2 }), inputs: families::prose(if thorough { 3 } else { 2 }, true) },
+            ],
             policy: std_policy(sparse),
             assumptions: vec![two_uses, wrapper],
             model: m,
@@ -375,7 +407,10 @@ fn plan_for(id: &str, thorough: bool) -> Option<Plan> {
         "C11" => Plan {
             oracle: Box::new(oracles::basic::C11),
             levels: full_levels(&m, thorough, model::FORMS_ALL, model::FORMS_QUICK, &["sp", "tab", "nl", "bc_sp", "lc_sp"]),
-            extra: vec![ExtraLevel { name: "degenerate documents".into(), inputs: families::degenerate() }],
+            extra: vec![
+                ExtraLevel { name: "degenerate documents".into(), inputs: families::degenerate() },
+                ExtraLevel { name: "whitespace spellings (mixed newline styles, long runs)".into(), inputs: families::ws_spellings() },
+            ],
             policy: std_policy(sparse),
             assumptions: vec![two_uses, wrapper],
             model: m,
@@ -462,7 +497,7 @@ fn plan_for(id: &str, thorough: bool) -> Option<Plan> {
                     }
                     s
                 },
-                model::FORMS_ALL,
+                if thorough { model::FORMS_ALL } else { &model::FORMS_QUICK[..8] },
                 if thorough { &["bc", "lc", "nl", "none"] } else { &[] },
             )],
             extra: vec![ExtraLevel {
